@@ -799,6 +799,8 @@ def pick_mods(rng, basis, tier, i):
         mods.append("eri_phys" if i % 2 else "eri_chem")
     if i % 3 == 0 and lmax <= 2 and ncart <= 24:
         mods.append("ehrenfest_hessian")
+    if tier == "quick" and (lmax >= 3 or ncart > 30) and i % 4 != 0:    # third derivatives of f / g shells: seconds each
+        mods = [x for x in mods if x not in ("ehrenfest_force", "stress")]
     return mods
 
 
